@@ -14,6 +14,7 @@ import YtkProofs.DiffTies
 import YtkProofs.ValidB
 import YtkProofs.Decisions2
 import YtkModel.Generated.Constants
+import YtkProofs.FuncsDomDiff
 
 namespace Ytk.C07
 
@@ -291,5 +292,61 @@ theorem diff_nonempty_same_flatten_counterexample :
     diff [("a", .cont [])] [("a", .list [])] = [Mod.mkDel "a"] :=
   ⟨Node.validB_sound _ (by decide +kernel), Node.validB_sound _ (by decide +kernel), by decide +kernel,
    by decide +kernel, by decide +kernel, by decide +kernel⟩
+
+end Ytk.C07
+
+/-! ## xlate7c: diff/diff.go REGENERATED from the source (YtkModel/Generated/FuncsDom.lean) equals the model
+
+  `extract/translate_dom.go` translates `appendMod`, `flattenLeaf`, `flattenContainer`, `flattenList`,
+  `flattenNode`, `diffList`, `handleExisting` and `diff` from /repo's working tree on every run (the
+  accumulator `res *[]Modification` is threaded through; the mutually recursive functions are indexed by a
+  fuel that the wrappers instantiate from the size of the left document).  For ALL documents, paths and
+  accumulators the translation returns `Go.Res.ok` (no panic, fuel not exhausted) with exactly the
+  modifications of the hand-written model of YtkModel/Diff.lean appended, in the same order, Go maps being
+  ranged in key order on both sides (order independence: `diff_det`, `emit_rel_perm`).  `G` renders a model
+  `Mod` as the Go struct (type constant text, path, value, old value).  Proofs: YtkProofs/FuncsDomDiff.lean. -/
+namespace Ytk.C07
+open Ytk.Generated Ytk.FuncsDomDiff
+
+theorem flattenContainer_generated_eq_model (c : AMap Node) (p : String) (res : List FuncsDom.diff_Modification) :
+    FuncsDom.flattenContainer c p res = .ok (res ++ G (flatKvs c p)) :=
+  FuncsDomDiff.flattenContainer_generated_eq_model c p res
+
+theorem flattenList_generated_eq_model (l : List Node) (p : String) (res : List FuncsDom.diff_Modification) :
+    FuncsDom.flattenList l p res = .ok (res ++ G (flatList l p 0)) :=
+  FuncsDomDiff.flattenList_generated_eq_model l p res
+
+theorem flattenLeaf_generated_eq_model (s : Scalar) (p : String) (res : List FuncsDom.diff_Modification) :
+    FuncsDom.flattenLeaf s p res = .ok (res ++ G (flatNode (.leaf s) p)) :=
+  FuncsDomDiff.flattenLeaf_eq s p res
+
+theorem flattenNode_generated_eq_model (n : Node) (p : String) (res : List FuncsDom.diff_Modification) :
+    FuncsDom.flattenNode n p res = .ok (res ++ G (flatNode n p)) :=
+  FuncsDomDiff.flattenNode_generated_eq_model n p res
+
+/-- diffList: Delete + the LEFT list's leaves when `!left.Equals(right)` -/
+theorem diffList_generated_eq_model (l r : List Node) (p : String) (res : List FuncsDom.diff_Modification) :
+    FuncsDom.diffList l r p res = .ok (res ++ G (emitNode (.list l) (.list r) p)) :=
+  FuncsDomDiff.diffList_generated_eq_model l r p res
+
+theorem handleExisting_generated_eq_model (l r : Node) (p : String) (res : List FuncsDom.diff_Modification) :
+    FuncsDom.handleExisting l r p res = .ok (res ++ G (emitNode l r p)) :=
+  FuncsDomDiff.handleExisting_generated_eq_model l r p res
+
+/-- the unexported `diff(left, right, path, res)`: what `Diff` sorts afterwards -/
+theorem diff_generated_eq_model (l r : AMap Node) :
+    FuncsDom.diff l r "" [] = .ok (G (emit l r)) := by
+  rw [FuncsDomDiff.diff_generated_eq_model]
+  simp [emit, emitNode]
+
+/-- the translated code RUN on a pair with a changed leaf, a replaced kind, a changed list and keys on one side only -/
+theorem nonvacuous_diff_generated :
+    (match FuncsDom.diff [("a", .leaf ⟨"int", "1"⟩), ("c", .cont [("x", .leaf ⟨"int", "1"⟩)]), ("l", .list [.leaf ⟨"int", "1"⟩]),
+                    ("o", .leaf ⟨"int", "7"⟩)]
+                   [("a", .leaf ⟨"int", "2"⟩), ("c", .leaf ⟨"int", "3"⟩), ("l", .list []), ("r", .leaf ⟨"int", "9"⟩)] "" [] with
+     | .ok ms => some (ms.map (fun m => (m.Type_, m.Path)))
+     | _ => none)
+      = some [("Change", "a"), ("Delete", "c"), ("Add", "c"), ("Delete", "l"), ("Add", "l[0]"), ("Add", "o"), ("Delete", "r")] := by
+  decide
 
 end Ytk.C07
